@@ -142,11 +142,17 @@ def coqchk(pid):
         fcntl.flock(lk, fcntl.LOCK_EX)
         digest = _vo_digest()
         res = None
-        if os.path.exists(cache):
-            try:
-                res = json.load(open(cache))
-            except Exception:
-                res = None
+        # build/coqchk.json (this machine) or coq/coqchk.cache.json (committed: the .vo files are
+        # reproducible byte for byte, so the digest of a fresh build matches the one recorded there)
+        for cand in (cache, os.path.join(COQ, "coqchk.cache.json")):
+            if os.path.exists(cand):
+                try:
+                    r = json.load(open(cand))
+                except Exception:
+                    continue
+                if r.get("digest") == digest:
+                    res = r
+                    break
         if not res or res.get("digest") != digest:
             mods = " ".join("SV.Props.C%02d" % i for i in range(1, 21) if os.path.exists(os.path.join(COQ, "Props", "C%02d.vo" % i)))
             t0 = time.time()
